@@ -1,2 +1,191 @@
-(** C13 — placeholder while the proofs are being written. *)
-From CM Require Import SingleFlight.Model.
+(** C13 — Concurrent handshakes share one load/obtain/renew and are never left hanging.
+    Only statements, each closed by [exact] / a short proof, with [Print Assumptions] beneath.
+
+    Vocabulary (SingleFlight/Model.v): an LTS whose state holds the two wait maps
+    (certLoadWaitChans = [lmap], obtainCertWaitChans = [omap]), the closed flag of every channel,
+    cache, storage, a clock, and any number of handshake goroutines ([thr : tid -> option
+    thread]; a goroutine has a name, a program counter, the load channel it registered [t_ld]).
+    [step] is deterministic given the label (goroutine id + the outcome chosen by the
+    environment: policy answer, issuer outcome, wake-up / time-out / cancellation; arrivals of new
+    handshakes; clock ticks; storage / cache changes by others).  [reachable] = any finite run from
+    an initial state with empty maps.  [owns_o pc] = the obtain-map channel the goroutine is the
+    worker for, [waits_on pc] = the channel it waits on. *)
+From Coq Require Import List ZArith Bool Lia.
+From CM Require Import Gen.Consts SingleFlight.Model SingleFlight.Proofs.
+Import ListNotations.
+Open Scope Z_scope.
+
+(** ** at most one of them performs the work *)
+Theorem C13_one_worker_per_name : forall s, reachable s ->
+  forall t1 t2 th1 th2, thr s t1 = Some th1 -> thr s t2 = Some th2 -> t_name th1 = t_name th2 ->
+  (owns_o (t_pc th1) <> None -> owns_o (t_pc th2) <> None -> t1 = t2) /\
+  (t_ld th1 <> None -> t_ld th2 <> None -> t1 = t2).
+Proof.
+  intros s R t1 t2 th1 th2 H1 H2 E. split.
+  - exact (one_obtain_worker_per_name s R t1 t2 th1 th2 H1 H2 E).
+  - exact (one_load_worker_per_name s R t1 t2 th1 th2 H1 H2 E).
+Qed.
+Print Assumptions C13_one_worker_per_name.
+
+(** two goroutines that could both call the issuer for the same name are the same goroutine *)
+Theorem C13_one_issuer_call_at_a_time : forall s, reachable s ->
+  forall t1 t2 th1 th2 o1 o2 s1 s2, thr s t1 = Some th1 -> thr s t2 = Some th2 ->
+  t_name th1 = t_name th2 ->
+  thread_step s t1 th1 (AIssue o1) = Some s1 -> thread_step s t2 th2 (AIssue o2) = Some s2 -> t1 = t2.
+Proof. exact one_issuer_call_per_name. Qed.
+Print Assumptions C13_one_issuer_call_at_a_time.
+
+(** ** every waiting handshake is released as soon as the worker finishes *)
+
+(** invariant A.8: the channel a goroutine waits on is closed, or registered for its name with a
+    live owner other than itself *)
+Theorem C13_waiters_have_a_live_worker : forall s, reachable s ->
+  forall t th ch, thr s t = Some th -> waits_on (t_pc th) = Some ch ->
+  closed s ch = true \/
+  exists w thw, w <> t /\ thr s w = Some thw /\ t_name thw = t_name th /\ finished (t_pc thw) = false /\
+    ((lmap s (t_name th) = Some ch /\ t_ld thw = Some ch) \/
+     (omap s (t_name th) = Some ch /\ owns_o (t_pc thw) = Some ch)).
+Proof. exact chan_inv. Qed.
+Print Assumptions C13_waiters_have_a_live_worker.
+
+(** every exit path of a worker region (success, issuer error, policy denial, load error,
+    cancellation: all steps of the model) performs close + delete in the step in which the
+    goroutine stops being the owner; a waiter's continue step is enabled as soon as its channel is
+    closed *)
+Theorem C13_waiters_released_with_worker : forall s, reachable s ->
+  forall t th a s' ch, thr s t = Some th -> thread_step s t th a = Some s' ->
+  forall th', thr s' t = Some th' ->
+  ((owns_o (t_pc th) = Some ch /\ owns_o (t_pc th') <> Some ch) \/
+   (t_ld th = Some ch /\ t_ld th' <> Some ch)) ->
+  closed s' ch = true /\
+  forall w thw, thr s' w = Some thw -> waits_on (t_pc thw) = Some ch ->
+    thread_step s' w thw AWake <> None.
+Proof.
+  intros s R t th a s' ch Ht H th' Ht' Own.
+  assert (Hld : forall c, t_ld th = Some c -> lmap s (t_name th) = Some c).
+  { intros c L. exact (ai_l_reg _ (reachable_inv s R) t (info_of th) c (abs_tb _ _ _ Ht) L). }
+  destruct (worker_exit_releases s t th a s' ch Ht Hld H th' Ht') as [A B].
+  assert (C : closed s' ch = true).
+  { destruct Own as [[O1 O2]|[L1 L2]]; [apply (A O1 O2)|apply (B L1 L2)]. }
+  split; [exact C|]. intros w thw Hw W. eapply waiter_enabled_when_closed; eauto.
+Qed.
+Print Assumptions C13_waiters_released_with_worker.
+
+(** a worker is never itself blocked on a channel and every step it takes strictly shortens
+    what is left of its region (at most 5 steps) or releases *)
+Theorem C13_worker_always_progresses : forall s t th ch, thr s t = Some th ->
+  owns_o (t_pc th) = Some ch ->
+  (exists a, a <> ATimeout /\ a <> ACancel /\ thread_step s t th a <> None) /\
+  (forall a s', thread_step s t th a = Some s' ->
+     exists th', thr s' t = Some th' /\
+       ((owns_o (t_pc th') = Some ch /\ (rank (t_pc th') < rank (t_pc th))%nat) \/
+        (owns_o (t_pc th') = None /\ closed s' ch = true))).
+Proof.
+  intros s t th ch Ht O. split.
+  - exact (worker_never_blocked s t th ch Ht O).
+  - intros a s' H. exact (worker_progress s t th a s' ch Ht O H).
+Qed.
+Print Assumptions C13_worker_always_progresses.
+
+(** nobody is left hanging: in every reachable state in which some goroutine waits, some goroutine
+    has an enabled step that is neither a time-out nor a cancellation (the code as fixed by
+    bbe2e54; before, a load worker could end up waiting on its own channel) *)
+Theorem C13_never_left_hanging : forall s, reachable s ->
+  forall t th ch, thr s t = Some th -> waits_on (t_pc th) = Some ch ->
+  exists t' th' a, thr s t' = Some th' /\ a <> ATimeout /\ a <> ACancel /\
+    thread_step s t' th' a <> None.
+Proof. exact no_hang. Qed.
+Print Assumptions C13_never_left_hanging.
+
+(** ** none blocks beyond the documented time-outs *)
+Theorem C13_timeouts_are_the_documented_ones :
+  t_load_wait = 120000000000 /\ t_obtain_wait = 120000000000 /\ t_renew_wait = 120000000000 /\
+  t_obtain_ctx = 180000000000 /\ t_renew_fg_ctx = 90000000000 /\ t_renew_bg_ctx = 300000000000.
+Proof. exact documented_timeouts. Qed.
+Print Assumptions C13_timeouts_are_the_documented_ones.
+
+Theorem C13_waiter_bounded : forall s t th ch since,
+  (t_pc th = PLoadWait ch since \/ t_pc th = PObtWait ch since \/ t_pc th = PRenWait ch since) ->
+  since + 120000000000 <= now s -> thread_step s t th ATimeout <> None.
+Proof. exact waiter_bounded. Qed.
+Print Assumptions C13_waiter_bounded.
+
+Theorem C13_worker_call_bounded : forall s t th,
+  (exists ch st, t_pc th = PObtain ch st) \/
+  (exists ch c st, t_pc th = PRenIssue ch c false st) \/
+  (exists ch c st, t_pc th = PRenIssue ch c true st /\ st + 300000000000 <= now s) ->
+  thread_step s t th ACancel <> None.
+Proof. exact worker_cancel_enabled. Qed.
+Print Assumptions C13_worker_call_bounded.
+
+(** ** while an unexpired certificate is being renewed, handshakes get the current one, unblocked *)
+Theorem C13_serve_current_while_renewing : forall c, serving c ->
+  (* 1: maintenance finds the bundle in storage: next is the obtain-map section *)
+  (forall s t th b, t_pc th = PMaint c -> store s (t_name th) <> None ->
+     thread_step s t th (AStep b) = Some (set_thr s t (set_pc th (PRenReg c)))) /\
+  (* 2: whether a renewal is already registered or this goroutine registers one (spawning the
+        background worker), it goes on to return c — in any state *)
+  (forall s t th b, t_pc th = PRenReg c -> b <> t -> thr s b = None ->
+     exists s', thread_step s t th (AStep b) = Some s' /\ thr s' t = Some (set_pc th (PRet (RCert c)))) /\
+  (* 3: and returns it *)
+  (forall s t th b, t_pc th = PRet (RCert c) -> t_ctx th = CtxHit c ->
+     exists s' th', thread_step s t th (AStep b) = Some s' /\ thr s' t = Some th' /\
+                    t_pc th' = PDone (RCert c)) /\
+  (* whatever other goroutines and the environment do in between leaves it where it is *)
+  (forall s l s' t th, step s l = Some s' ->
+     match l with LThread t' _ => t' <> t | _ => True end -> thr s t = Some th -> thr s' t = Some th).
+Proof.
+  intros c S. split; [|split; [|split]].
+  - intros s t th b. exact (serve_current_step1 s t th c b S).
+  - intros s t th b. exact (serve_current_step2 s t th c b S).
+  - intros s t th b. exact (serve_current_step3 s t th c b).
+  - intros s l s' t th H Hl. apply (frame s l s' t H). destruct l; auto.
+Qed.
+Print Assumptions C13_serve_current_while_renewing.
+
+(** ** once the renewal completes, the new certificate is in the cache and the old one is not;
+    the cache lookup never prefers an expired certificate to an unexpired one *)
+Theorem C13_new_cert_after_renewal :
+  (forall s t th ch c bg s0 b, t_pc th = PRenReload ch c bg -> store s (t_name th) = Some s0 ->
+     gen s0 <> gen c ->
+     exists s', thread_step s t th (AStep b) = Some s' /\
+       existsb (cert_eqb (unrevoked s0)) (cache s' (t_name th)) = true /\
+       existsb (cert_eqb c) (cache s' (t_name th)) = false) /\
+  (forall l, (exists x, In x l /\ expired x = false) ->
+     exists y, lookup l = Some y /\ expired y = false).
+Proof. split; [exact renewed_cert_is_cached|exact lookup_prefers_unexpired]. Qed.
+Print Assumptions C13_new_cert_after_renewal.
+
+(** ** an expired certificate is not served while its renewal can still succeed (partial: an
+    expired certificate is only ever handed back by a re-entry after the worker released, or as a
+    worker's own load result — never by the maintenance / serve-current paths; that the renewal
+    waited for has failed is a statement about the history, checked on the implementation by the
+    correspondence monitor, not proved here) *)
+Theorem C13_expired_not_served_partial : forall s t th a s' th' c,
+  thread_step s t th a = Some s' -> thr s' t = Some th' ->
+  t_pc th' = PRet (RCert c) -> expired c = true -> t_pc th <> PRet (RCert c) ->
+  t_pc th = PStart false \/ (exists ch, t_pc th = PObtUnblock ch (RCert c)) \/
+  (exists ch c0 bg, t_pc th = PRenUnblock ch c0 (RCert c) bg).
+Proof. exact expired_returned_only_after_wait_partial. Qed.
+Print Assumptions C13_expired_not_served_partial.
+
+(** non-vacuity: a reachable state with a worker at its policy gate and a second handshake
+    waiting on the worker's load channel *)
+Definition ex_run : list label :=
+  [LArrive 0 0; LThread 0 (AStep 9); LThread 0 (AStep 9);
+   LArrive 1 0; LThread 1 (AStep 9); LThread 1 (AStep 9)]%nat.
+Example C13_ex_waiter_and_worker :
+  match run (init (fun _ => []) (fun _ => None) 1%nat) ex_run with
+  | Some s => (option_map t_pc (thr s 0%nat), option_map t_pc (thr s 1%nat), lmap s 0%nat)
+  | None => (None, None, None)
+  end = (Some (PGate1 true), Some (PLoadWait 0%nat 0), Some 0%nat).
+Proof. vm_compute. reflexivity. Qed.
+Example C13_ex_reachable : exists s, reachable s /\ exists t th ch, thr s t = Some th /\ waits_on (t_pc th) = Some ch.
+Proof.
+  destruct (run (init (fun _ => []) (fun _ => None) 1%nat) ex_run) as [s|] eqn:E; [|vm_compute in E; discriminate].
+  exists s. split; [exists (fun _ => []), (fun _ => None), 1%nat, ex_run; exact E|].
+  vm_compute in E. inversion E. exists 1%nat. eexists. exists 0%nat. cbn. split; reflexivity.
+Qed.
+(** the serving hypothesis is satisfiable *)
+Example C13_ex_serving : serving (Cert 1 Due false).
+Proof. split; reflexivity. Qed.
